@@ -57,7 +57,7 @@ Print Assumptions C11_lex.
    identifiers that are not keywords (any number of structs and fields, identifiers of any length), and EVERY way of
    putting horizontal whitespace - spaces, tabs, CRs, hence CRLF line ends and any indentation - in front of the tokens of
    the one-field-per-line text, ReadFile (tokenizer and parser models together, with the fuel the driver passes) returns
-   exactly the File the text states: the structs in source order, each with its fields in order, nothing else, no
+   exactly the File the text states: the structs in source order, each with its fields in order, nothing else (blank lines between definitions allowed), no
    attribute leaking from one definition to the next.  (front/ParseInv.v: tokenizer inversion, then the parser stepped
    symbolically over the token list with an induction over fields and over definitions.)  Messages, enums, unions, consts,
    container types, attributes and comments are decided by the run against the expected dump. *)
@@ -73,9 +73,9 @@ Proof. exact read_structs. Qed.
 Example C11_structs_witness :
   let A := {| ic := 65%N; itl := [] |} in let B := {| ic := 66%N; itl := [98%N] |} in
   let i32 := {| ic := 105%N; itl := [110; 116; 51; 50]%N |} in let x := {| ic := 120%N; itl := [] |} in let y := {| ic := 121%N; itl := [49; 95]%N |} in
-  let sl := [(A, [(i32, x); (B, y)]); (B, [])] in
+  let sl := [(A, [(i32, x); (B, y)], 1); (B, [], 0)] in
   let sp := [32%N] in let cr := [13%N] in
-  let ws := [[]; sp; sp ++ sp; cr;  [9%N]; sp; []; cr;  [9; 32]%N; [9%N]; sp; cr;  []; cr;   []; sp; []; cr; []; []] in
+  let ws := [[]; sp; sp ++ sp; cr;  [9%N]; sp; []; cr;  [9; 32]%N; [9%N]; sp; cr;  []; cr;  cr;   []; sp; []; cr; []; []] in
   let l := combine ws (schema_lex sl) in
   Forall sdef_ok sl /\ map snd l = schema_lex sl /\ Forall (fun p => hws (fst p)) l /\ sep_ok l /\
   exists s', read_file (render l [32; 13]%N) false = POk (file_of sl) s'.
